@@ -37,6 +37,8 @@ def run_for(prop, repo, tier):
     try:
         for rel in ("src", "Cargo.toml", "Cargo.lock"):
             s = os.path.join(repo, rel)
+            if not os.path.exists(s) and rel == "Cargo.lock":
+                s = "/repo/Cargo.lock"        # scratch worktrees do not carry the (untracked) lock file
             d = os.path.join(tmp, rel)
             if os.path.isdir(s):
                 shutil.copytree(s, d)
